@@ -116,7 +116,10 @@ Verdict(t, e) ==
            ELSE <<"ok", "">>
     [] e.fn = "to_graph" ->
          \* a graph that must be the base graph (density_to_graph, stabilizer_to_graph, convert_representation(.. -> g))
-         IF e.out.err # "" THEN <<"Raised", e.via>>
+         IF e.has_st /\ (IF e.st.kind = "T" THEN TClause(e.st) ELSE SClause(e.st)) # "ok" THEN <<"HarnessInputInvalid", e.via>>
+         ELSE IF e.has_st /\ (IF e.st.kind = "T" THEN TGroup(e.st) ELSE SGroup(e.st)) # GS(G1, n)
+              THEN <<"HarnessInputNotBase", e.via>>
+         ELSE IF e.out.err # "" THEN <<"Raised", e.via>>
          ELSE IF ~GraphOK(n, e.out) THEN <<"OutputIsGraph", e.via>>
          ELSE IF GOf(n, e.out) # G1 THEN <<"GraphRecovered", e.via>>
          ELSE <<"ok", "">>
